@@ -359,7 +359,9 @@ def table_provenance(P, rep, rule="K2"):
                     rep.violation(rule, "%s: %s = %s" % (name, l, r), F.nloc(x), F.qn, norm.render(P, x)[:120],
                                   "a per-section table entry comes from another section/segment or another quantity", key="%s|%s|%s" % (rule, name, what),
                                   witness="two sections with different segment tables")
-        if seen != set(want):
+        if not seen:
+            rep.unknown(rule, "%s: the per-section tables are not filled by `table[i][j] = ...` stores in parse_entries (restructured?)" % name)
+        elif seen != set(want):
             rep.violation(rule, "%s: tables filled: %s" % (name, sorted(seen)), F.loc, F.qn, "", "a per-section table is never filled", key="%s|%s|missing" % (rule, name))
         # sizes of the outer tables
         sized = {}
